@@ -145,7 +145,8 @@ pub fn run_summary(files: &[(String, String)], o: &RunOpts, cut: Date, annual: b
         opts.csv_parse_options = parse_opts(o).map_err(SummaryErr::BadInit)?;
         let data = async_std::task::block_on(run_acb_app_summary_to_model(cut, readers(files), init, opts, loader_for(o), WriteHandle::empty_write_handle()))
             .map_err(|e| match e.general_error { Some(g) => SummaryErr::General(g), None => SummaryErr::Sec(e.sec_errors.into_iter().collect()) })?;
-        let warnings: Vec<String> = data.warnings.iter().map(|(w, secs)| format!("{w} [{}]", secs.join(","))).collect();
+        let mut warnings: Vec<String> = data.warnings.iter().map(|(w, secs)| format!("{w} [{}]", secs.join(","))).collect();
+        warnings.sort(); // the console front end prints them sorted; its real order is checked at binary level (C09)
         let csvtxs: Vec<acb::portfolio::CsvTx> = data.txs.into_iter().map(|t| t.into()).collect();
         let n = csvtxs.len();
         let mut buf = acb::util::rw::StringBuffer::new();
